@@ -10,10 +10,30 @@ FUNCS = ["problog.engine_stack.MessageAnyOrder/MessageOrderD/MessageOrderDrc",
          "RandomOrderQueue transcribed from docs/source/engine.rst", "evaluation pipeline as in C01"]
 
 
+import re
+
+
+def _recursion_under_negation(text):
+    """the program negates a goal of a predicate that (directly) calls itself"""
+    rec = set()
+    for line in text.split("\n"):
+        m = re.match(r"^\s*(?:[\w.]+::)?(\w+)(?:\([^)]*\))?\s*:-(.*)$", line)
+        if m and re.search(r"(?<![\w])%s\(" % re.escape(m.group(1)), m.group(2)):
+            rec.add(m.group(1))
+    return any(re.search(r"\\\+\s*%s\b" % re.escape(p), text) for p in rec)
+
+
 def work(item):
     # C04 states "the same accept/reject decision" (C03: "the same errors"): two runs that both
     # refuse to answer agree, whatever exception each raises
-    return c03.work(item, errors="reject")
+    st = c03.work(item, errors="reject")
+    # a VALUE that differs under the random e-message order is keyed by the program class, not by the program
+    text = gen.program_text(item[1])
+    for v in st["violations"]:
+        b = v["replay"].get("B") or {}
+        if b.get("engine") == "random" and v["key"].split(":")[0] in ("bool", "real", "extra") and _recursion_under_negation(text):
+            v["key"] = "random:value:recursive-goal-under-negation"
+    return st
 
 
 def main(tier, seed):
